@@ -480,15 +480,16 @@ func (v *Validator) lookupEntityAttr(lub entityLUB, attr types.String) *attribut
 	return result
 }
 
-// entityHasTags returns true if all entities in the LUB have tags defined.
+// entityHasTags returns true if some entity type in the LUB has tags defined: hasTag can only be
+// typed False when no member of the union can carry a tag.
 func (v *Validator) entityHasTags(lub entityLUB) bool {
 	for _, et := range lub.elements {
 		entity := v.schema.Entities[et]
-		if entity.Tags == nil {
-			return false
+		if entity.Tags != nil {
+			return true
 		}
 	}
-	return true
+	return false
 }
 
 // entityTagType returns the LUB of the tag types for all entities in the LUB.
@@ -498,7 +499,8 @@ func (v *Validator) entityTagType(lub entityLUB) (cedarType, error) {
 	for _, et := range lub.elements {
 		entity := v.schema.Entities[et]
 		if entity.Tags == nil {
-			return typeNever{}, nil
+			// a member without tags never passes the hasTag guard that getTag requires
+			continue
 		}
 		tagType := schemaTypeToCedarType(entity.Tags)
 		tagLUB, err := v.leastUpperBound(result, tagType)
